@@ -1392,6 +1392,42 @@ def gen_big_symbol_cases(seed, count):
     return cases
 
 
+def gen_name_length_cases(seed, count):
+    """small grammars whose symbol names have lengths around the segment arithmetic of the object
+    stacks (a first object larger than a segment gives a segment of odd length; a later object
+    then ends in its last partial word): name lengths swept, in the callbacks and in histories of
+    one object"""
+    r = random.Random(seed)
+    cases = []
+    for i in range(count):
+        l1 = r.choice([r.randint(340, 360), r.randint(500, 530), r.randint(780, 830), r.randint(1000, 1100)])
+        # a top object of l1 + c bytes gets a segment of 1.5 x that + 1 bytes: a second name of about
+        # l1 / 2 - 55 characters ends in the last (partial) word of the segment (measured: 350 -> 120..126,
+        # 520 -> 200..205, 803 -> 344..350; the constant depends on structure sizes, so the window is wide)
+        l2 = max(1, r.choice([l1 // 2 - r.randint(40, 72), l1 // 2 - r.randint(40, 72), r.randint(300, 400), r.randint(1, 40)]))
+        long1 = 'L' * l1; mid = 'M' * l2
+        style = r.random()
+        if style < 0.5:
+            terms = [('a', 97), ('b', 98)]
+            rules = [('S', 's', 1, [long1, mid], [0, 1]), (long1, 'l', 1, ['a'], [0]), (mid, 'm', 1, ['b'], [0])]
+        else:
+            terms = [(long1, 97), (mid, 98), ('c' * r.randint(1, 9), 99)]
+            rules = [('S', 's', 1, [long1, mid, terms[2][0]], [0, 1, 2])]
+        g = Grammar(terms, rules, True)
+        c = ['case NAMES-%d-%d parse' % (seed, i)] + g.text(0)
+        n = 0
+        def op(s):
+            nonlocal n
+            n += 1; c.append('op %d %s' % (n, s))
+        op('create 0'); op('def 0 0'); op('set 0 rec 0')
+        op('parse 0 user user 13 97 98' + (' 99' if style >= 0.5 else ''))
+        if r.random() < 0.5: op('def 0 0'); op('parse 0 user user 13 97 98' + (' 99' if style >= 0.5 else ''))
+        op('free 0')
+        c.append('end')
+        cases.append(c)
+    return cases
+
+
 def gen_hostile_cases(seed, count):
     """inputs at the edge of the API preconditions: arbitrary bytes as descriptions, very long
     names, many symbols, sparse/dense codes, arbitrary ints as tokens, extreme setter values,
